@@ -62,6 +62,12 @@ def cases(ctx, n):
     while len(out) < n:
         R = rng.choice([192, 192, 480, 100, 96, 3, 1])
         groups = ig.gen_groups(rng, R, rng.choice([1, 2, 3, 5, 8, 14]))
+        if rng.random() < 0.1:
+            # the same section far along the tick axis (10^6, around 2^31 and 2^32, 10^10): ticks are integers of any size, and two notes
+            # whose ticks differ by a power of two are two notes
+            base = rng.choice([10 ** 6 - 3, 2 ** 31 - 100, 2 ** 32 - 300, 2 ** 32 + 5, 10 ** 10])
+            for g in groups[len(groups) // 2 if rng.random() < 0.5 else 0:]:
+                g["tick"] += base
         lines = ig.section_lines(rng, groups, R)
         if rng.random() < 0.25:
             lines = [(ig.exotic_line(rng, l) if rng.random() < 0.7 else ig.zero_pad(rng, l)) if rng.random() < 0.6 else l for l in lines]
